@@ -22,14 +22,23 @@ META = {
              "for delete-before-verify, first-wins dedupe, .hyd left after failed verify / failed create, name lost when the meta file is unreadable, "
              "appending to a .hyd that is already there (appendsExisting_mixes: success with another swamp's name and records; "
              "appendsExisting_destroys: a failing write / verification removes the file that was there); verify_weaker and the "
-             "chunk-overflow duplicate as observations. classify_sound ties the decision to 13 extracted facts. Folders are built by "
+             "chunk-overflow duplicate as observations. migrate_rerun_completes + migrate_twice (the scenario migrate(no DeleteOld); migrate(DeleteOld): the second run finds the target equal to the legacy "
+             "data — sameTarget_sound / sameTarget_written: the test is sound and complete for a lawful codec — writes nothing and removes the "
+             "folder), migrate_durable_before_delete (V1 files go only after the new file was fsync'ed); refutations refusesEqual "
+             "(C23-rerun-never-completes) and noSync (C23-delete-before-fsync). classify_sound ties the decision to 15 extracted facts. Folders are built by "
              "the real V1 engine from generated histories (tiny chunk sizes), migrated by the real migrator under every option "
              "combination and with injected open/write/verify/unlink failures, and loaded back by the real V2 engine; records are "
              "compared by their whole gob model, not by key. Swamp names are mixed-case, non-ASCII, 400..800 bytes long and one of 70000 bytes; the "
              "name read back from the .hyd is compared byte for byte with the name the harness decodes from the V1 meta file itself. Folders with a "
              "hand-made empty-key record and a 70000-byte-key record. A file planted at the target path (valid V2 file of another swamp / header-only "
              "/ junk) under four option combinations and with write and verification failures. fault=dropkey: the hook between write and verify "
-             "swaps the new file for a valid one that lacks a key, so verification fails on a really missing key."),
+             "swaps the new file for a valid one that lacks a key, so verification fails on a really missing key. fault=rerun: every folder is "
+             "migrated without DeleteOld first and then with the op's options; pre=newer: that file with one key rewritten since. fault=fsync: "
+             "the fsync of FileWriter.Close fails; fault=syncorder: the system calls are observed (strace -y) — a successful fsync of the .hyd "
+             "must precede the first unlink in the V1 folder. `multi`: 16 (thorough 60) swamps in one data directory, migrated by one run with "
+             "Parallel 1 / 4 / 8: every swamp must end exactly as it does in a run of its own. NOT COVERED: verifyValues=no (verification "
+             "compares keys only) does not change the verdict — with a lawful codec the written values are right (verify_weaker is recorded as "
+             "an observation); durability of the directory entry of the new file (no fsync of the parent directory is modelled or required)."),
     "note": ("Trusted: Lean kernel (propext, Classical.choice, Quot.sound); extract/c23.go; harness/c23.go (its own framing parser + gob "
              "decode describe the folder to the model). The V2 codec is a parameter (V2.Lawful: with distinct keys a written file loads "
              "back to the inserted records and name); it is DISCHARGED for the C01 storage model by Hv.MigrateV2.storV2_lawful, which "
@@ -67,6 +76,10 @@ def op_kv(op):
 
 def impl_violation(op, line):
     """Spec oracle on the implementation's reply alone."""
+    if op.startswith("multi "):
+        if not re.match(r"multi n=\d+ diff=0$", line):
+            return "several swamps migrated by one run (%s) do not all end as they do alone: %s" % (op.split(" | ")[0], line)
+        return None
     if not op.startswith("mig "):
         return None
     o, r = op_kv(op), kv(line)
@@ -86,9 +99,16 @@ def impl_violation(op, line):
             return "migration failed (%s) but a .hyd file was left behind" % res
         return None
     if o.get("r") == "1":
-        if r.get("v1") != "same" or r.get("hyd") != ("kept" if pre else "0"):
+        rerun_file = o.get("fault") == "rerun" and r.get("first") == "success"      # the earlier run's file is there, and stays
+        if r.get("v1") != "same" or r.get("hyd") != ("kept" if pre else "1" if rerun_file else "0"):
             return "dry run changed the disk (%s)" % line
         return None
+    if r.get("hyd") == "unsynced":
+        return "V1 files were unlinked before the new file was fsync'ed"
+    if o.get("fault") == "fsync" and res == "success":
+        return "migration succeeded although the new file could not be made durable (fsync failed at Close)"
+    if o.get("fault") == "rerun" and r.get("first") == "success" and res.startswith("failed") and o.get("r") != "1":
+        return ("a run without DeleteOld succeeded, the next run fails the swamp (%s): the V1 folder can never be removed by the tool" % res)
     if o.get("fault") == "dropkey" and o.get("v") == "1" and res == "success":
         return "verification passed although a key is missing from the new file"
     if r.get("v1") != "same" and o.get("d") != "1":
